@@ -5,7 +5,13 @@ patch="$1"; shift
 cd /verif
 if [ -n "$(git -C /repo status --porcelain --untracked-files=no)" ]; then echo "repo not clean"; exit 2; fi
 git -C /repo apply "$patch" || { echo "patch does not apply"; exit 2; }
-trap 'git -C /repo checkout -- . ; echo "[try_patch] /repo restored"' EXIT
+restore() {
+  git -C /repo checkout -- .
+  # rebuild the pristine binaries so that nothing stale from the seeded change is left in .target
+  (cd /verif && python3 -c "import sys; sys.path.insert(0,'py'); import common; common.build_real(); common.build_harness()" > /dev/null 2>&1)
+  echo "[try_patch] /repo restored, pristine binaries rebuilt"
+}
+trap restore EXIT
 for id in "$@"; do
   echo "=== $id with $(basename $(dirname $patch))/$(basename $patch)"
   VERIF_TIER=${TIER:-quick} ./check $id --tier ${TIER:-quick} > /tmp/try_$id.log 2>&1; rc=$?
